@@ -65,6 +65,7 @@ struct wrap_state W = {
     .short_at = -1,
     .shrink_at = -1,
     .grow_at = -1,
+    .relink_at = -1,
     .alloc_fail_at = -1,
     .log = NULL,
 };
@@ -73,7 +74,7 @@ void wrap_reset(void) {
   FILE *log = W.log;
   memset(&W, 0, sizeof W);
   W.clock = 1000000;
-  W.crash_at = W.fail_at = W.short_at = W.alloc_fail_at = W.shrink_at = W.grow_at = -1;
+  W.crash_at = W.fail_at = W.short_at = W.alloc_fail_at = W.shrink_at = W.grow_at = W.relink_at = -1;
   W.log = log;
 }
 
@@ -369,6 +370,21 @@ int __wrap_symlinkat(const char *target, int fd, const char *name) {
 }
 
 ssize_t __wrap_readlinkat(int fd, const char *p, char *buf, size_t n) {
+  if (W.relink_at == W.ncalls) {
+    /* somebody replaces the link between the moment its size was taken and the moment it is read */
+    char old[8192];
+    ssize_t len = __real_readlinkat(fd, p, old, sizeof old - 1);
+    if (len > 0 && (size_t)len + W.relink_n + 2 < sizeof old) {
+      old[len++] = '/';
+      for (size_t i = 0; i < W.relink_n; ++i) {
+        old[len++] = 'r';
+      }
+      old[len] = 0;
+      if (unlinkat(fd, p, 0) || symlinkat(old, fd, p)) {
+        perror("relink");
+      }
+    }
+  }
   GATE_FAIL("readlinkat", -1);
   logf_(" %s %zu", p, n);
   return done_i(__real_readlinkat(fd, p, buf, n));
